@@ -514,3 +514,172 @@ def any_of(terms) -> T:
     if not terms:
         return const(False)
     return terms[0] if len(terms) == 1 else T("bool", ("or", terms))
+
+
+# ------------------------------------------------------------------ membership in sets that are built, not written
+def _ieval(t: T, env: Dict[T, int]):
+    """Integer value of a small arithmetic term with the given variables bound; None if it is anything else."""
+    if t in env:
+        return env[t]
+    if t.op == "const" and isinstance(t.a[0], int) and not isinstance(t.a[0], bool):
+        return t.a[0]
+    if t.op == "bin" and t.a[0] in ("<<", ">>", "|", "&", "+", "-", "*", "^"):
+        l, r = _ieval(t.a[1], env), _ieval(t.a[2], env)
+        if l is None or r is None:
+            return None
+        try:
+            return {"<<": lambda: l << r, ">>": lambda: l >> r, "|": lambda: l | r, "&": lambda: l & r, "+": lambda: l + r,
+                    "-": lambda: l - r, "*": lambda: l * r, "^": lambda: l ^ r}[t.a[0]]()
+        except (ValueError, OverflowError):
+            return None
+    return None
+
+
+def _shr(v: T, k: int) -> T:
+    """v >> k, with (a >> m) >> k written a >> (m + k)."""
+    if k == 0:
+        return v
+    if v.op == "bin" and v.a[0] == ">>" and v.a[2].op == "const" and isinstance(v.a[2].a[0], int):
+        return T("bin", (">>", v.a[1], const(v.a[2].a[0] + k)))
+    return T("bin", (">>", v, const(k)))
+
+
+def _interval_as_field(lo: T, hi: T, var: T):
+    """If, for every c in 0..255, [lo(c), hi(c)) == [c * 2**k + a, c * 2**k + b) with 0 <= a < b <= 2**k: (k, a, b).
+    Then `lo(c) <= v < hi(c)` says: the field v >> k equals c, and the low k bits of v lie in [a, b)."""
+    for k in range(1, 33):
+        a0 = b0 = None
+        ok = True
+        for c in range(256):
+            l, h = _ieval(lo, {var: c}), _ieval(hi, {var: c})
+            if l is None or h is None:
+                return None
+            a, b = l - (c << k), h - (c << k)
+            if a0 is None:
+                a0, b0 = a, b
+            if (a, b) != (a0, b0) or not (0 <= a < b <= (1 << k)):
+                ok = False
+                break
+        if ok:
+            return k, a0, b0
+    return None
+
+
+def expand_membership(rec, t: T) -> T:
+    """`v in S` for a set S that is computed - set(L), A | B, S.update(...), S.add(e), range(a, b), and such a set
+    accumulated over a for loop - is the condition on v that it abbreviates:
+
+        v in set(L)                         ->  v in L
+        v in A | B / A.union(B) / after A.update(B)   ->  v in A or v in B
+        v in range(a, b)                    ->  a <= v and v < b                       (v an integer)
+        v in S built by `for c in P: S.update(range(lo(c), hi(c)))`
+                                            ->  v in S0 or (v >> k) in P [and a <= v & (2**k - 1) < b]
+    the last one when the ranges are the aligned blocks [c * 2**k + a, c * 2**k + b) for every c in 0..255 (evaluated).
+    Anything else is left as it is."""
+    def parts_of(it: T):
+        """collections an iteration runs over, in order: (*A, *B) / A + B / [*A] / A"""
+        if it.op in ("tuple", "list") and it.a[0] and all(x.op == "star" for x in it.a[0]):
+            return [x.a[0] for x in it.a[0]]
+        if it.op == "bin" and it.a[0] == "+":
+            l, r = parts_of(it.a[1]), parts_of(it.a[2])
+            return None if l is None or r is None else l + r
+        if it.op == "call" and it.a[0] == T("global", ("itertools.chain",)) and not it.a[2]:
+            out = []
+            for x in it.a[1]:
+                p = parts_of(x)
+                if p is None:
+                    return None
+                out += p
+            return out
+        if it.op in ("attr", "param", "sub", "global") or (it.op == "call" and it.a[0].op == "builtin"
+                                                              and it.a[0].a[0] in ("list", "tuple", "set", "sorted")
+                                                              and len(it.a[1]) == 1):
+            return [it.a[1][0] if it.op == "call" else it]
+        return None
+
+    def member(v: T, s: T, depth: int = 0) -> Optional[T]:
+        if depth > 12:
+            return None
+        if s.op == "call" and s.a[0].op == "builtin" and s.a[0].a[0] in ("set", "frozenset", "list", "tuple") and not s.a[2]:
+            if not s.a[1]:
+                return const(False)
+            if len(s.a[1]) == 1:
+                inner = member(v, s.a[1][0], depth + 1)
+                return inner if inner is not None else T("cmp", ("in", v, s.a[1][0]))
+        if s.op in ("set", "list", "tuple"):
+            return T("cmp", ("in", v, s)) if s.a[0] else const(False)
+        if s.op == "bin" and s.a[0] == "|":
+            l, r = member(v, s.a[1], depth + 1), member(v, s.a[2], depth + 1)
+            return None if l is None or r is None else any_of([l, r])
+        if s.op == "call" and s.a[0].op == "attr" and s.a[0].a[1] == "union" and not s.a[2]:
+            ms = [member(v, x, depth + 1) for x in (s.a[0].a[0],) + tuple(s.a[1])]
+            return None if any(m is None for m in ms) else any_of(ms)
+        if s.op == "mut" and s.a[1] in ("update", "add") and len(s.a[2]) == 1:
+            base = member(v, s.a[0], depth + 1)
+            if base is None:
+                return None
+            if s.a[1] == "add":
+                return any_of([base, T("cmp", ("==", v, s.a[2][0]))])
+            more = member(v, s.a[2][0], depth + 1)
+            return None if more is None else any_of([base, more])
+        if s.op == "call" and s.a[0] == T("builtin", ("range",)) and len(s.a[1]) in (1, 2) and not s.a[2]:
+            lo, hi = (const(0), s.a[1][0]) if len(s.a[1]) == 1 else s.a[1]
+            return T("bool", ("and", (T("cmp", ("<=", lo, v)), T("cmp", ("<", v, hi)))))
+        if s.op == "widen" and isinstance(s.a[1], int) and rec is not None:
+            lr = rec.loops.get(s.a[1])
+            full = sym.final_widen(rec, s)
+            if lr is None or lr.kind != "for" or lr.target is None or full.op != "widen" or len(full.a[2]) != 2:
+                return None
+            init, step = full.a[2]
+            inside = T("widen", (s.a[0], s.a[1], (init,)))
+            HOLE = T("bound", ("__already_in__",))
+            added = member(v, sym.subst(step, {inside: T("set", ((HOLE,),))}), depth + 1) if sym.contains(step, inside) else None
+            base = member(v, init, depth + 1)
+            parts = parts_of(lr.iter) if lr.iter is not None else None
+            if added is None or base is None or parts is None:
+                return None
+            # `added` is: (v in {HOLE}) or <what one iteration adds>; the first disjunct stands for "was in already"
+            per_iter = [d for d in (added.a[1] if added.op == "bool" and added.a[0] == "or" else (added,))
+                        if not sym.contains(d, HOLE)]
+            if len(per_iter) != 1:
+                return None
+            d = per_iter[0]
+            if not (d.op == "bool" and d.a[0] == "and" and len(d.a[1]) == 2 and all(x.op == "cmp" for x in d.a[1])
+                    and d.a[1][0].a[0] == "<=" and d.a[1][0].a[2] == v and d.a[1][1].a[0] == "<" and d.a[1][1].a[1] == v):
+                return None
+            fld = _interval_as_field(d.a[1][0].a[1], d.a[1][1].a[2], lr.target)
+            if fld is None:
+                return None
+            k, a, b = fld
+            low = T("bin", ("&", v, const((1 << k) - 1)))
+            extra = []
+            if a > 0:
+                extra.append(T("cmp", ("<=", const(a), low)))
+            if b < (1 << k):
+                extra.append(T("cmp", ("<", low, const(b))))
+            hits = any_of([T("cmp", ("in", _shr(v, k), p)) for p in parts])
+            if extra:
+                hits = T("bool", ("and", (hits,) + tuple(extra)))
+            return any_of([base, hits])
+        if s.op in ("attr", "param", "sub"):
+            return T("cmp", ("in", v, s))
+        return None
+
+    def rule(x: T) -> T:
+        if x.op == "cmp" and x.a[0] in ("in", "not in") and x.a[2].op in ("call", "bin", "mut", "widen"):
+            m = member(x.a[1], x.a[2])
+            if m is not None:
+                return m if x.a[0] == "in" else T("not", (m,))
+        return x
+    return rewrite(t, rule)
+
+
+def value_bool_to_ite(t: T) -> T:
+    """`a and b` used as a value is `b if a else a`; `a or b` is `a if a else b`."""
+    if t.op == "bool" and len(t.a[1]) >= 2:
+        first, rest = t.a[1][0], t.a[1][1:]
+        tail = value_bool_to_ite(rest[0] if len(rest) == 1 else T("bool", (t.a[0], rest)))
+        return T("ite", (first, tail, first)) if t.a[0] == "and" else T("ite", (first, first, tail))
+    if t.op == "ite":
+        return T("ite", (t.a[0], value_bool_to_ite(t.a[1]), value_bool_to_ite(t.a[2])))
+    return t
